@@ -1,8 +1,9 @@
 (* Corr/TTHeaderC.v — shared by Corr/C06.v and Corr/C10.v: decoding of the harness' cvals and
    the comparison of one observed Decode result with the model and with the spec.
 
-   dec ::= (status errclass flags seq pid intmap strmap hlen plen readlen)
-     status 0 ok | 1 error | 2 panic;  maps: ((key value) ...) sorted by key, keys distinct *)
+   dec ::= (status errclass flags seq pid intmap strmap hlen plen readlen intnil strnil)
+     status 0 ok | 1 error | 2 panic;  maps: ((key value) ...) sorted by key, keys distinct;
+     intnil/strnil = 1: the map is nil (absent), 0: a map (possibly empty) *)
 From GV Require Import Lib.Bytes Lib.Res Corr.Val Model.TTHeader Spec.FrameLayout.
 Open Scope N_scope.
 
@@ -16,14 +17,15 @@ Definition vsmap (v : cval) : list (bytes * bytes) := map vskv (vlist v).
 Record obs := {
   o_st : Z; o_ec : Z; o_fl : Z; o_sq : Z; o_pid : Z;
   o_im : list (N * bytes); o_sm : list (bytes * bytes);
-  o_hlen : Z; o_plen : Z; o_rl : Z
+  o_hlen : Z; o_plen : Z; o_rl : Z; o_inil : Z; o_snil : Z
 }.
 
 Definition vobs (v : cval) : option obs :=
   match v with
-  | L [I st; I ec; I fl; I sq; I pid; im; sm; I hl; I pl; I rl] =>
+  | L [I st; I ec; I fl; I sq; I pid; im; sm; I hl; I pl; I rl; I inil; I snil] =>
     Some {| o_st := st; o_ec := ec; o_fl := fl; o_sq := sq; o_pid := pid;
-            o_im := vimap im; o_sm := vsmap sm; o_hlen := hl; o_plen := pl; o_rl := rl |}
+            o_im := vimap im; o_sm := vsmap sm; o_hlen := hl; o_plen := pl; o_rl := rl;
+            o_inil := inil; o_snil := snil |}
   | _ => None
   end.
 
@@ -33,13 +35,21 @@ Definition norm_err (e : Z) : Z := if (e =? e_short2)%Z then e_short else e.
 Definition imap_eqb (a b : list (N * bytes)) : bool := fm_eqb N.eqb a b.
 Definition smap_eqb (a b : list (bytes * bytes)) : bool := fm_eqb beqb a b.
 
+(* an observed map (entries + nil flag) against an optional association list *)
+Definition omap_eqb {K} (keq : K -> K -> bool) (nilflag : Z) (obs : list (K * bytes))
+           (m : option (list (K * bytes))) : bool :=
+  match m with
+  | None => (nilflag =? 1)%Z && match obs with [] => true | _ => false end
+  | Some l => (nilflag =? 0)%Z && fm_eqb keq obs l
+  end.
+
 Definition dec_agree (m : N * res dparam) (o : obs) : bool :=
   let '(c, r) := m in
   match r with
   | Ok d =>
     (o_st o =? 0)%Z && (o_rl o =? Z.of_N c)%Z
     && (o_fl o =? Z.of_N (d_flags d))%Z && (o_sq o =? d_seq d)%Z && (o_pid o =? Z.of_N (d_pid d))%Z
-    && imap_eqb (o_im o) (d_int d) && smap_eqb (o_sm o) (d_str d)
+    && omap_eqb N.eqb (o_inil o) (o_im o) (d_int d) && omap_eqb beqb (o_snil o) (o_sm o) (d_str d)
     && nodupk N.eqb (keys (o_im o)) && nodupk beqb (keys (o_sm o))
     && (o_hlen o =? d_hlen d)%Z && (o_plen o =? d_plen d)%Z
   | Err e => (o_st o =? 1)%Z && (o_ec o =? norm_err e)%Z && (o_rl o =? Z.of_N c)%Z
@@ -54,7 +64,7 @@ Definition dec_spec (b : bytes) (o : obs) : bool :=
      | Some s =>
        (o_st o =? 0)%Z
        && (o_fl o =? Z.of_N (s_flags s))%Z && (o_sq o =? s_seq s)%Z && (o_pid o =? Z.of_N (s_pid s))%Z
-       && imap_eqb (o_im o) (s_int s) && smap_eqb (o_sm o) (s_str s)
+       && omap_eqb N.eqb (o_inil o) (o_im o) (s_int s) && omap_eqb beqb (o_snil o) (o_sm o) (s_str s)
        && nodupk N.eqb (keys (o_im o)) && nodupk beqb (keys (o_sm o))
        && (o_hlen o =? s_hlen s)%Z && (o_plen o =? s_plen s)%Z
      | None => (o_st o =? 1)%Z
@@ -62,7 +72,8 @@ Definition dec_spec (b : bytes) (o : obs) : bool :=
 
 Definition dec_tag (m : N * res dparam) : Z :=
   match snd m with
-  | Ok d => (1 + (if d_int d then 0 else 1) + (if d_str d then 0 else 2))%Z
+  | Ok d => (1 + (match d_int d with None => 0 | Some [] => 1 | _ => 2 end)
+              + (match d_str d with None => 0 | Some [] => 3 | _ => 6 end))%Z
   | Err e => (10 + e)%Z
   | Panic _ => 30%Z
   | OOB => 31%Z
